@@ -497,6 +497,17 @@ func (p *Program) heapSortByName(h string) *smt.Sort {
 		if t != nil {
 			return heapSort(sortOf(t))
 		}
+	case strings.HasPrefix(h, "map:"), strings.HasPrefix(h, "mapdom:"):
+		isDom := strings.HasPrefix(h, "mapdom:")
+		mt, ok := p.mapTypes[strings.TrimPrefix(strings.TrimPrefix(h, "mapdom:"), "map:")]
+		if !ok {
+			return nil
+		}
+		ks := sortOf(mt.Key())
+		if isDom {
+			return smt.Array(smt.BV(64), smt.Array(ks, smt.Bool))
+		}
+		return smt.Array(smt.BV(64), smt.Array(ks, sortOf(mt.Elem())))
 	case strings.HasPrefix(h, "ghost:"):
 		n := strings.TrimPrefix(h, "ghost:")
 		if g, ok := p.Ghosts[n]; ok {
